@@ -1538,3 +1538,96 @@ func spellingTwinsFamily() []*Program {
 	}
 	return out
 }
+
+// injectorTemplateForms: injector templates and parameter types in forms a user may legally
+// write although wire's documentation never shows them. Whatever gen accepts has to compile
+// together with a default-tag file that uses the injector the way the template declares it
+// (as a method, with type arguments). Rejection with a diagnostic is fine where RejectOK.
+func injectorTemplateForms() []*Program {
+	var progs []*Program
+	hdr := "//go:build wireinject\n// +build wireinject\n\npackage app\n\n"
+	drvHdr := "//go:build !wireinject\n// +build !wireinject\n\npackage app\n\n"
+	mk := func(id, note string, rejectOK bool) *Program {
+		p := &Program{ID: "tf_" + id, Module: ModulePath, Extra: map[string]string{}, Feat: map[string]string{"matrix": "template-forms", "what": note}, RawDriver: true, RejectOK: rejectOK}
+		p.Pkgs = []*Pkg{{Name: "app", Dir: "app"}, {Name: "libx", Dir: "libx"}}
+		p.Extra["1/lib.go"] = "package libx\n\ntype Svc struct{ N int }\n\nfunc NewSvc() *Svc { return &Svc{N: 1} }\n"
+		p.Note = "template-form-" + id
+		return p
+	}
+	{
+		p := mk("method", "injector template declared as a method", true)
+		p.Extra["0/decl.go"] = "package app\n\ntype App struct{ K int }\n\ntype Svc struct{ N int }\n\nfunc NewSvc(n int) *Svc { return &Svc{N: n} }\n"
+		p.Extra["0/wire.go"] = hdr + "import \"github.com/google/wire\"\n\nfunc (a *App) Init(n int) *Svc {\n\twire.Build(NewSvc)\n\treturn nil\n}\n"
+		p.Extra["0/zz_driver.go"] = drvHdr + "func Scenarios() {\n\ta := &App{K: 1}\n\t_ = a.Init(3)\n}\n"
+		progs = append(progs, p)
+	}
+	{
+		p := mk("generic", "injector template with a type parameter", true)
+		p.Extra["0/decl.go"] = "package app\n\ntype Box struct{ N int }\n\nfunc NewBox() *Box { return &Box{N: 1} }\n"
+		p.Extra["0/wire.go"] = hdr + "import \"github.com/google/wire\"\n\nfunc Init[T any](v T) *Box {\n\twire.Build(NewBox)\n\treturn nil\n}\n"
+		p.Extra["0/zz_driver.go"] = drvHdr + "func Scenarios() {\n\t_ = Init[int](1)\n}\n"
+		progs = append(progs, p)
+	}
+	{
+		p := mk("generic-result", "injector template whose result mentions its type parameter", true)
+		p.Extra["0/decl.go"] = "package app\n"
+		p.Extra["0/wire.go"] = hdr + "import \"github.com/google/wire\"\n\nfunc Init[T any](v []T) []T {\n\twire.Build()\n\treturn nil\n}\n"
+		p.Extra["0/zz_driver.go"] = drvHdr + "func Scenarios() {\n\t_ = Init[int](nil)\n}\n"
+		progs = append(progs, p)
+	}
+	{
+		p := mk("literal-blank-field", "struct literal provider (deprecated form) of a struct with a blank field", true)
+		p.Extra["0/decl.go"] = "package app\n\ntype Foo struct {\n\tN int\n\t_ string\n}\n"
+		p.Extra["0/wire.go"] = hdr + "import \"github.com/google/wire\"\n\nfunc Init(n int, s string) *Foo {\n\twire.Build(Foo{})\n\treturn nil\n}\n"
+		p.Extra["0/zz_driver.go"] = drvHdr + "func Scenarios() {\n\t_ = Init(1, \"s\")\n}\n"
+		progs = append(progs, p)
+	}
+	// aliases in the injector's own signature: the template compiles, so must the implementation
+	// (wire sees the aliased type only; where that type cannot be written in the injector's
+	// package a refusal is the one correct alternative to an implementation)
+	aliasLib := func(p *Program, decl string, extra map[string]string) {
+		p.Extra["1/lib.go"] = "package libx\n\n" + decl + "\n\ntype Svc struct{ N int }\n\nfunc NewSvc() *Svc { return &Svc{N: 1} }\n"
+		for k, v := range extra {
+			p.Extra[k] = v
+		}
+	}
+	{
+		p := mk("alias-of-internal-type", "injector parameter typed by an exported alias of a type of an internal package", true)
+		p.Pkgs = append(p.Pkgs, &Pkg{Name: "secret", Dir: "libx/internal/secret"})
+		p.Extra["2/secret.go"] = "package secret\n\ntype Config struct{ N int }\n"
+		aliasLib(p, "import \""+p.ImportPath(2)+"\"\n\ntype Config = secret.Config", nil)
+		p.Extra["0/wire.go"] = hdr + "import (\n\t\"github.com/google/wire\"\n\t\"" + p.ImportPath(1) + "\"\n)\n\nfunc Init(c libx.Config) *libx.Svc {\n\twire.Build(libx.NewSvc)\n\treturn nil\n}\n"
+		p.Extra["0/zz_driver.go"] = drvHdr + "import \"" + p.ImportPath(1) + "\"\n\nfunc Scenarios() {\n\t_ = Init(libx.Config{})\n}\n"
+		progs = append(progs, p)
+	}
+	{
+		p := mk("alias-of-unnamed-struct", "injector parameter typed by an alias of an unnamed struct with an unexported field", true)
+		aliasLib(p, "type Opts = struct{ n int }", nil)
+		p.Extra["0/wire.go"] = hdr + "import (\n\t\"github.com/google/wire\"\n\t\"" + p.ImportPath(1) + "\"\n)\n\nfunc Init(o libx.Opts) *libx.Svc {\n\twire.Build(libx.NewSvc)\n\treturn nil\n}\n"
+		p.Extra["0/zz_driver.go"] = drvHdr + "import \"" + p.ImportPath(1) + "\"\n\nfunc Scenarios() {\n\t_ = Init(libx.Opts{})\n}\n"
+		progs = append(progs, p)
+	}
+	{
+		p := mk("alias-of-unexported-type", "injector parameter and result typed by an exported alias of an unexported type", true)
+		aliasLib(p, "type cfg struct{ N int }\n\ntype Cfg = cfg\n\nfunc NewCfg() Cfg { return Cfg{N: 2} }", nil)
+		p.Extra["0/wire.go"] = hdr + "import (\n\t\"github.com/google/wire\"\n\t\"" + p.ImportPath(1) + "\"\n)\n\nfunc Init(c libx.Cfg) *libx.Svc {\n\twire.Build(libx.NewSvc)\n\treturn nil\n}\n\nfunc InitCfg() (libx.Cfg, error) {\n\twire.Build(libx.NewCfg)\n\treturn libx.Cfg{}, nil\n}\n"
+		p.Extra["0/zz_driver.go"] = drvHdr + "import \"" + p.ImportPath(1) + "\"\n\nfunc Scenarios() {\n\t_ = Init(libx.Cfg{})\n\t_, _ = InitCfg()\n}\n"
+		progs = append(progs, p)
+	}
+	{
+		p := mk("alias-embedded-in-unnamed-struct", "injector parameter of an unnamed struct type embedding an alias", false)
+		aliasLib(p, "type S struct{ N int }\n\ntype A = S", nil)
+		p.Extra["0/wire.go"] = hdr + "import (\n\t\"github.com/google/wire\"\n\t\"" + p.ImportPath(1) + "\"\n)\n\nfunc Init(o struct{ libx.A }) *libx.Svc {\n\twire.Build(libx.NewSvc)\n\treturn nil\n}\n"
+		p.Extra["0/zz_driver.go"] = drvHdr + "import \"" + p.ImportPath(1) + "\"\n\nfunc Scenarios() {\n\t_ = Init(struct{ libx.A }{})\n}\n"
+		progs = append(progs, p)
+	}
+	{
+		// control: an alias of an exported, importable type
+		p := mk("alias-control", "injector parameter typed by an alias of an exported type (control)", false)
+		aliasLib(p, "type S struct{ N int }\n\ntype A = S\n\ntype L = []*S", nil)
+		p.Extra["0/wire.go"] = hdr + "import (\n\t\"github.com/google/wire\"\n\t\"" + p.ImportPath(1) + "\"\n)\n\nfunc Init(a libx.A, l libx.L) *libx.Svc {\n\twire.Build(libx.NewSvc)\n\treturn nil\n}\n"
+		p.Extra["0/zz_driver.go"] = drvHdr + "import \"" + p.ImportPath(1) + "\"\n\nfunc Scenarios() {\n\t_ = Init(libx.A{}, libx.L{})\n}\n"
+		progs = append(progs, p)
+	}
+	return progs
+}
